@@ -430,6 +430,8 @@ def _violation_selection(ctx, G, F):
     # (a) the explanation entry point, interpreted
     _explanation_entry(ctx, F)
     explanation_configuration(ctx, 'C03.R4')
+    from .c18 import derived_violation_flags
+    derived_violation_flags(ctx, 'C03.R10')
     # (b) generated handlers, by interpreting the wrapper generator under the warn flags
     N = _wrap.names(ctx)
     W = _wrap.wrapgen(ctx)
